@@ -21,6 +21,16 @@
 //   connection is closed under traffic (on either socket) and re-established
 //   by the dialer: order and at-most-once must hold across the cut, and every
 //   message submitted after the successor is attached must arrive.
+// audit r2 additions:
+//   contended start (every 6th stream case): 3-6 contenders (redialling nng
+//   dialers, raw peers) are released together onto a socket that has NO peer
+//   yet; contended replacement: raw peers compete with the redialling peer
+//   for the slot freed by a cut; quiescent resize: both senders parked at a
+//   gate and everything delivered -> SENDBUF/RECVBUF set to any value 0..8
+//   (shrinks); streams of empty messages and frames that are exactly one hop
+//   word; a cooked PAIRv1 socket sends received messages back (wire hop 1); a
+//   raw PAIRv1 socket must refuse headers that are not one hop word < 0xff;
+//   MAXTTL changed while a burst is in flight.
 //
 // Oracle (exactly the property):
 //   one-peer   - per socket, pipes between ADD_POST and REM_POST never > 1;
@@ -53,6 +63,9 @@
 #define TAG_INTRUDER 0x0BAD0BADu
 #define TAG_HOP 0x0C081100u
 #define TAG_OUT 0x0C082200u
+#define TAG_CONT 0x0C08C000u // + index of the contender
+#define TAG_HELLO 0x0C08E110u
+#define XCONT_SEQ 11u // seq of the one message a contender at a replaced connection sends
 
 #define STALL_NS (20ULL * 1000000000ULL)
 
@@ -61,8 +74,11 @@ typedef struct {
 	pthread_mutex_t mtx;
 	const char     *proto;
 	uint32_t        ids[16];
+	bool            isx[16]; // attached through the contenders' listener
 	int             live, maxlive;
 	long            pre, post, rem_live, rem_refused;
+	int             xlid;  // id of the listener only contenders connect to (0: none)
+	long            xpost; // pipes attached through it
 } pmon;
 
 static void
@@ -79,6 +95,13 @@ mon_cb(nng_pipe p, nng_pipe_ev ev, void *arg)
 		m->post++;
 		if (m->live < 16) {
 			m->ids[m->live] = id;
+			m->isx[m->live] = false;
+		}
+		if (m->xlid != 0 && nng_listener_id(nng_pipe_listener(p)) == m->xlid) {
+			m->xpost++;
+			if (m->live < 16) {
+				m->isx[m->live] = true;
+			}
 		}
 		m->live++;
 		if (m->live > m->maxlive) {
@@ -99,6 +122,7 @@ mon_cb(nng_pipe p, nng_pipe_ev ev, void *arg)
 		}
 		if (found >= 0) {
 			m->ids[found] = m->ids[(m->live < 16 ? m->live : 16) - 1];
+			m->isx[found] = m->isx[(m->live < 16 ? m->live : 16) - 1];
 			m->live--;
 			m->rem_live++;
 		} else {
@@ -125,10 +149,19 @@ mon_attach(nng_socket s, pmon *m, const char *proto)
 	}
 }
 
+static void
+mon_set_xlid(pmon *m, int lid)
+{
+	pthread_mutex_lock(&m->mtx);
+	m->xlid = lid;
+	pthread_mutex_unlock(&m->mtx);
+}
+
 typedef struct {
-	long     post, rem_live, rem_refused;
+	long     post, rem_live, rem_refused, xpost;
 	int      live, maxlive;
 	uint32_t first_id;
+	bool     first_is_x;
 } monsnap;
 
 static monsnap
@@ -142,6 +175,8 @@ mon_get(pmon *m)
 	s.live        = m->live;
 	s.maxlive     = m->maxlive;
 	s.first_id    = m->live > 0 ? m->ids[0] : 0;
+	s.first_is_x  = m->live > 0 && m->isx[0];
+	s.xpost       = m->xpost;
 	pthread_mutex_unlock(&m->mtx);
 	return s;
 }
@@ -211,6 +246,7 @@ typedef struct {
 	int  owner; // 0 = A, 1 = B
 	char url[160];
 	int  port;
+	int  lid;
 } lsn;
 
 static int
@@ -226,6 +262,7 @@ lsn_open(nng_socket s, int owner, int tran, lsn *l)
 	l->tran  = tran;
 	l->owner = owner;
 	l->port  = 0;
+	l->lid   = nng_listener_id(nl);
 	if ((rv = vf_dial_url(nl, tran, url, l->url, sizeof(l->url))) != 0) {
 		return rv;
 	}
@@ -362,6 +399,8 @@ struct dirst {
 	_Atomic int  send_rv, recv_rv;
 	_Atomic int  paused, bad;
 	_Atomic int  resume;
+	_Atomic int  gate_ack; // generation of the sender gate this sender is parked at
+	_Atomic long intruders; // messages of a contender that was THE peer for a while
 	pthread_mutex_t mtx;
 	pthread_cond_t  cv;
 	sslot           slots[MAXWIN];
@@ -387,6 +426,11 @@ struct scase {
 	_Atomic int  sbuf[2], rbuf[2]; // current values, [0]=A [1]=B
 	_Atomic bool sb_grown[2];
 	_Atomic int  abort;
+	bool         empty;         // every message of the case is empty (0 bytes)
+	_Atomic int  gate;          // != 0: senders park before submitting the next message
+	int          gate_gen;
+	bool         contend;       // contenders race for the slot when the connection is replaced
+	int          xlaunched;     // how many of them were started
 	bool         replace;       // the connection is cut and re-established mid-stream
 	_Atomic int  cuts;          // connections cut on purpose so far
 	_Atomic int  cut_started, cut_done, cut_skipped;
@@ -420,6 +464,9 @@ static size_t
 msg_size(const dirst *d, int i)
 {
 	uint64_t x = vf_mix64(d->key ^ ((uint64_t) i * 0x9e3779b97f4a7c15ULL));
+	if (d->c->empty) {
+		return 0;
+	}
 	if (d->bulk) {
 		// big enough to fill the kernel's socket buffers while paused
 		size_t base = d->c->tran == VF_T_TCP ? 65536 : 32768;
@@ -445,7 +492,9 @@ make_msg(const dirst *d, int i)
 	if (nng_msg_alloc(&m, sz) != 0) {
 		vf_harness_fail("msg alloc %zu", sz);
 	}
-	vf_body_make(nng_msg_body(m), sz, d->tag, (uint64_t) i);
+	if (sz != 0) {
+		vf_body_make(nng_msg_body(m), sz, d->tag, (uint64_t) i);
+	}
 	if (d->tx_raw) {
 		nng_msg_header_append_u32(m, msg_hop(d, i));
 	}
@@ -460,8 +509,10 @@ main_pipes_up(scase *c)
 	monsnap a = mon_get(&c->ma), b = mon_get(&c->mb);
 	// (the dialling side may have attached and lost refused attempts while
 	// the listening side had not yet noticed that the old peer was gone)
-	return a.live == 1 && b.live == 1 && a.rem_live == cuts &&
-	    (cuts != 0 ? b.rem_live >= cuts : b.rem_live == 0);
+	// (with contenders at the cut, 'cuts' also counts contenders that held
+	// the slot for a while; the dialling side lost at least its first pipe)
+	return a.live == 1 && b.live == 1 && !a.first_is_x && a.rem_live == cuts &&
+	    (cuts != 0 ? b.rem_live >= 1 : b.rem_live == 0);
 }
 
 // Judge a received message when seq 'exp' is the next one expected.
@@ -474,12 +525,28 @@ check_msg(dirst *d, long exp, nng_msg *m)
 	scase   *c   = d->c;
 	uint32_t tag = 0;
 	uint64_t seq = 0;
-	int      rc  = vf_body_check(nng_msg_body(m), nng_msg_len(m), &tag, &seq);
+	int      rc;
+	if (c->empty && nng_msg_len(m) == 0) {
+		// a stream of empty messages is judged by count (and, on a raw
+		// PAIRv1 receiver, by the per-position hop word)
+		rc  = 0;
+		tag = d->tag;
+		seq = (uint64_t) exp;
+	} else {
+		rc = vf_body_check(nng_msg_body(m), nng_msg_len(m), &tag, &seq);
+	}
 	if (rc != 0) {
 		vf_violation("C08/order/corrupt-message",
 		    "%s %s dir=%d: message at position %ld failed its self-check (rc %d, %zu bytes)",
 		    c->pk->name, vf_tran_names[c->tran], d->dir, exp, rc, nng_msg_len(m));
 		return -1;
+	}
+	if (tag == TAG_INTRUDER && seq == XCONT_SEQ && c->contend && d->dir == 1 && atomic_load(&c->cut_started)) {
+		// a contender that got the free slot when the connection was cut was
+		// THE peer for a while: its message is legitimate (how many of them
+		// is judged at the end against the contenders that were attached)
+		atomic_fetch_add(&d->intruders, 1);
+		return -2;
 	}
 	if (tag == TAG_INTRUDER) {
 		if (main_pipes_up(c)) {
@@ -613,11 +680,30 @@ cv_wait_ms(dirst *d, int ms)
 // With a replaced connection the tail of a stream may be lost with the old
 // connection; one trailer (seq n) submitted after the successor is attached on
 // both sides must arrive and tells the receiver that the stream is over.
+// The sender gate: while c->gate != 0 a sender parks before it submits its
+// next message and says so (generation number, so that a stale acknowledgement
+// of an earlier gate is never taken for this one).
 static void
-wait_cut(scase *c)
+wait_cut(dirst *d)
 {
+	scase *c = d->c;
 	while (!atomic_load(&c->cut_done) && !atomic_load(&c->cut_skipped) && !atomic_load(&c->abort)) {
+		int g = atomic_load(&c->gate);
+		if (g != 0) {
+			atomic_store(&d->gate_ack, g); // (cut_done is only set by who holds the gate)
+		}
 		vf_usleep(300);
+	}
+}
+
+static void
+gate_wait(dirst *d)
+{
+	scase *c = d->c;
+	int    g;
+	while ((g = atomic_load(&c->gate)) != 0 && !atomic_load(&c->abort)) {
+		atomic_store(&d->gate_ack, g);
+		vf_usleep(150);
 	}
 }
 
@@ -631,8 +717,9 @@ sender_thread(void *arg)
 	if (d->smode == SM_BLOCK) {
 		for (int i = 0; i < d->ntot && !atomic_load(&c->abort); i++) {
 			if (i == d->n) {
-				wait_cut(c);
+				wait_cut(d);
 			}
+			gate_wait(d);
 			jitter(&r, d->sjit);
 			nng_msg *m = make_msg(d, i);
 			atomic_fetch_add(&d->submitted, 1);
@@ -657,8 +744,9 @@ sender_thread(void *arg)
 		}
 		for (int i = 0; i < d->ntot && !atomic_load(&c->abort); i++) {
 			if (i == d->n) {
-				wait_cut(c);
+				wait_cut(d);
 			}
+			gate_wait(d);
 			jitter(&r, d->sjit);
 			nng_msg *m  = make_msg(d, i);
 			int      rv = 0;
@@ -730,8 +818,9 @@ sender_thread(void *arg)
 		for (int i = 0; i < d->ntot; i++) {
 			int j = -1;
 			if (i == d->n) {
-				wait_cut(c);
+				wait_cut(d);
 			}
+			gate_wait(d);
 			pthread_mutex_lock(&d->mtx);
 			for (;;) {
 				for (int k = 0; k < d->swin; k++) {
@@ -818,7 +907,7 @@ receiver_thread(void *arg)
 		}
 		nng_aio_set_timeout(aios[j], NNG_DURATION_INFINITE);
 	}
-	int posted = 0; // number of receives submitted so far (ring mode)
+	long posted = 0; // number of receives submitted so far (ring mode)
 	if (d->rmode == RM_RING) {
 		for (int j = 0; j < w && posted < d->ntot; j++, posted++) {
 			nng_socket_recv(d->rx, aios[j]);
@@ -826,6 +915,7 @@ receiver_thread(void *arg)
 	}
 	long exp  = 0; // next sequence number expected
 	long nget = 0; // messages taken so far
+	long skip = 0; // of those: messages of a contender that was legitimately the peer
 	while (exp < d->ntot && !atomic_load(&c->abort)) {
 		nng_msg *m  = NULL;
 		int      rv = 0;
@@ -848,6 +938,12 @@ receiver_thread(void *arg)
 		case RM_RING: {
 			// receives were submitted in order 0,1,2..; the k-th
 			// submission must complete with the k-th message
+			// (post #k uses aio k % w, take #k waits on it; at most w are
+			// outstanding, at most ntot + skipped are ever posted)
+			while (posted - nget < w && posted < d->ntot + skip) {
+				nng_socket_recv(d->rx, aios[posted % w]);
+				posted++;
+			}
 			nng_aio *a = aios[nget % w];
 			nng_aio_wait(a);
 			rv = (int) nng_aio_result(a);
@@ -901,8 +997,20 @@ receiver_thread(void *arg)
 			}
 			break;
 		}
+		if (m == NULL) {
+			vf_violation("C08/lossless/receive-succeeded-without-message",
+			    "%s %s dir=%d: a receive (%s) completed successfully without a message at position %ld (taken %ld, posted %ld, skipped %ld, total %d)",
+			    c->pk->name, vf_tran_names[c->tran], d->dir, rm_names[d->rmode], exp, nget, posted, skip, d->ntot);
+			atomic_store(&d->bad, 1);
+			break;
+		}
 		long got = check_msg(d, exp, m);
 		nng_msg_free(m);
+		if (got == -2) {
+			nget++;
+			skip++;
+			continue;
+		}
 		if (got < 0) {
 			atomic_store(&d->bad, 1);
 			break;
@@ -912,9 +1020,12 @@ receiver_thread(void *arg)
 		// (a seq lost with a replaced connection counts as consumed: it
 		// occupies no buffer any more)
 		atomic_store(&d->received, exp);
-		if (d->rmode == RM_RING && posted < d->ntot && exp < d->ntot) {
-			nng_socket_recv(d->rx, aios[(nget - 1) % w]);
-			posted++;
+		if (d->rmode == RM_RING && exp < d->ntot) {
+			// keep the ring full while the application looks at the message
+			while (posted - nget < w && posted < d->ntot + skip) {
+				nng_socket_recv(d->rx, aios[posted % w]);
+				posted++;
+			}
 		}
 	}
 	for (int j = 0; j < w; j++) {
@@ -1094,7 +1205,7 @@ close_extras(scase *c)
 	c->nx = 0;
 }
 
-enum { EV_RESIZE, EV_XNNG, EV_XRAW, EV_DECOY, EV_SIDEDOOR, EV_REPLACE };
+enum { EV_RESIZE, EV_XNNG, EV_XRAW, EV_DECOY, EV_SIDEDOOR, EV_REPLACE, EV_QUIESCE };
 typedef struct {
 	long at;
 	int  kind;
@@ -1113,6 +1224,10 @@ stall_report(scase *c)
 		     sub = atomic_load(&d->submitted);
 		if (!up) {
 			continue;
+		}
+		int g = atomic_load(&c->gate);
+		if (g != 0 && (atomic_load(&d->gate_ack) == g || atomic_load(&d->send_done)) && sub == acc && acc == rec) {
+			continue; // parked at the sender gate with nothing in flight
 		}
 		if (rec < acc) {
 			vf_violation("C08/lossless/accepted-not-delivered",
@@ -1191,6 +1306,146 @@ handle_pause(scase *c, dirst *d, vf_rng *r)
 	}
 }
 
+// A loss-free point for ANY buffer change: both senders parked at the gate
+// and everything they submitted accepted and taken by the receiving
+// application - all four queues are empty.  Sets 1-3 of the buffers to any
+// value 0..8 (at least one of them shrinks when one is > 0).
+// returns 0 done / skipped, -1 a stream thread reported a failure, -2 stalled
+static int
+quiesce_resize(scase *c, vf_rng *r)
+{
+	if (c->replace && atomic_load(&c->cut_started)) {
+		return 0; // what died with the old connection is never "received"
+	}
+	int g = ++c->gate_gen;
+	atomic_store(&c->gate, g);
+	uint64_t last    = vf_now_ns();
+	long     lastsum = -1;
+	for (;;) {
+		bool quiet = true;
+		long sum   = 0;
+		for (int k = 0; k < 2; k++) {
+			dirst *d = &c->d[k];
+			// (order matters: once the sender is seen parked, submitted is
+			// final; accepted and received only grow towards it)
+			bool parked = atomic_load(&d->send_done) || atomic_load(&d->gate_ack) == g;
+			long sub = atomic_load(&d->submitted), acc = atomic_load(&d->accepted),
+			     rec = atomic_load(&d->received);
+			sum += sub + acc + rec;
+			if (!parked || sub != acc || acc != rec) {
+				quiet = false;
+			}
+			if (atomic_load(&d->bad) || atomic_load(&d->send_rv) || atomic_load(&d->recv_rv)) {
+				return -1; // (gate stays closed: the case is over)
+			}
+			if (atomic_load(&d->paused) && !atomic_load(&d->resume)) {
+				handle_pause(c, d, r); // a parked reader would keep the stream from draining
+				last = vf_now_ns();
+			}
+		}
+		if (quiet) {
+			break;
+		}
+		if (sum != lastsum) {
+			lastsum = sum;
+			last    = vf_now_ns();
+		}
+		if (vf_now_ns() - last > STALL_NS) {
+			return -2; // (gate stays closed for stall_report)
+		}
+		vf_usleep(200);
+	}
+	int nset = (int) vf_range(r, 1, 3), shrunk = 0;
+	for (int j = 0; j < nset; j++) {
+		int who = (int) vf_below(r, 2), opt = (int) vf_below(r, 2);
+		int cur = opt == 0 ? c->sbuf[who] : c->rbuf[who];
+		int nv  = (int) vf_below(r, 9);
+		if (j == 0) {
+			// prefer a buffer that can shrink
+			for (int t = 0; t < 4 && cur == 0; t++) {
+				who = t & 1;
+				opt = t >> 1;
+				cur = opt == 0 ? c->sbuf[who] : c->rbuf[who];
+			}
+			if (cur > 0) {
+				nv = (int) vf_below(r, (uint32_t) cur);
+			}
+		}
+		if (nv == cur) {
+			continue;
+		}
+		if (opt == 0 && nv > cur) {
+			atomic_store(&c->sb_grown[who], true);
+		}
+		set_buf(c, who, opt, nv);
+		if (nv < cur) {
+			shrunk++;
+			vf_stat("shrinks_at_quiescence", 1);
+			if (nv == 0) {
+				vf_stat("shrinks_to_zero_at_quiescence", 1);
+			}
+		} else {
+			vf_stat("grows_at_quiescence", 1);
+		}
+	}
+	vf_stat("quiescent_points", 1);
+	if (shrunk) {
+		vf_class("shrink/%s/%s/%s", c->pk->name, vf_tran_names[c->tran], c->d[0].rmode == RM_RING || c->d[1].rmode == RM_RING ? "ring-posted" : "plain");
+	}
+	atomic_store(&c->gate, 0);
+	return 0;
+}
+
+// Contenders for the slot that becomes free when the only connection is cut:
+// raw peers that connect through a listener of their own (so that the monitor
+// can tell their pipes from the redialling peer's), complete the handshake,
+// send one message and leave after a short while.  ANY one of them or the
+// redialling peer may get the slot; never two at a time (pipe monitor), and
+// no more contender messages are delivered than contenders were attached.
+typedef struct {
+	const lsn  *l;
+	uint16_t    proto;
+	bool        v1;
+	int         delay_us, patience_ms;
+	_Atomic int *go;
+	int         outcome; // 1 refused (EOF, no data), 2 was the peer (got data), 0 undecided, -1 no connection
+	pthread_t   th;
+} xcont;
+
+static void *
+xcont_thread(void *arg)
+{
+	xcont   *x = arg;
+	uint16_t peer = 0;
+	uint8_t  frame[4 + 64];
+	size_t   off = 0;
+	while (!atomic_load(x->go)) {
+		vf_usleep(50);
+	}
+	if (x->delay_us > 0) {
+		vf_usleep(x->delay_us);
+	}
+	int fd = lsn_raw_connect(x->l);
+	if (fd < 0) {
+		x->outcome = -1;
+		return NULL;
+	}
+	if (vf_sp_handshake(fd, x->proto, &peer, 10000) != 0) {
+		x->outcome = 1;
+		close(fd);
+		return NULL;
+	}
+	if (x->v1) {
+		put32(frame, 1);
+		off = 4;
+	}
+	vf_body_make(frame + off, 40, TAG_INTRUDER, XCONT_SEQ);
+	(void) vf_sp_send_frame(fd, x->l->tran == VF_T_IPC, frame, off + 40);
+	x->outcome = fd_wait_closed_nodata(fd, x->patience_ms);
+	close(fd);
+	return NULL;
+}
+
 static void
 stream_case(long idx, vf_rng *r)
 {
@@ -1208,6 +1463,8 @@ stream_case(long idx, vf_rng *r)
 	bool bulk  = c->tran != VF_T_INPROC && vf_chance(r, 1, 8);
 	int  nbase = bulk ? 90 : (int) vf_range(r, 30, thorough ? 400 : 160);
 	c->replace = !bulk && vf_chance(r, 1, 4);
+	c->contend = c->replace && vf_chance(r, 1, 2);
+	c->empty   = !bulk && !c->replace && vf_chance(r, 1, 12);
 	for (int k = 0; k < 2; k++) {
 		dirst *d = &c->d[k];
 		d->c     = c;
@@ -1237,10 +1494,10 @@ stream_case(long idx, vf_rng *r)
 		pthread_cond_init(&d->cv, NULL);
 	}
 	snprintf(c->ctx, sizeof(c->ctx), "%s", c->pk->name);
-	vf_case_begin(idx, "stream %s %s sb=%d/%d rb=%d/%d n=%d/%d smode=%d.%d/%d.%d rmode=%d/%d pert=%d bulk=%d replace=%d",
+	vf_case_begin(idx, "stream %s %s sb=%d/%d rb=%d/%d n=%d/%d smode=%d.%d/%d.%d rmode=%d/%d pert=%d bulk=%d replace=%d contend=%d empty=%d",
 	    c->pk->name, vf_tran_names[c->tran], c->sbuf[0], c->sbuf[1], c->rbuf[0], c->rbuf[1],
 	    c->d[0].n, c->d[1].n, c->d[0].smode, c->d[0].swin, c->d[1].smode, c->d[1].swin,
-	    c->d[0].rmode, c->d[1].rmode, pert, bulk, (int) c->replace);
+	    c->d[0].rmode, c->d[1].rmode, pert, bulk, (int) c->replace, (int) c->contend, (int) c->empty);
 	vf_watchdog(180);
 
 	if (pert == 1) {
@@ -1281,8 +1538,19 @@ stream_case(long idx, vf_rng *r)
 		vf_harness_fail("first connection did not come up");
 	}
 
+	// contenders for the slot at the cut come in through a listener of
+	// their own on A
+	lsn xl;
+	memset(&xl, 0, sizeof(xl));
+	if (c->contend) {
+		if ((rv = lsn_open(c->a, 0, vf_chance(r, 1, 2) ? VF_T_TCP : VF_T_IPC, &xl)) != 0) {
+			vf_harness_fail("contender listen: %s", nng_strerror(rv));
+		}
+		mon_set_xlid(&c->ma, xl.lid);
+	}
+
 	// event plan, keyed by total messages delivered
-	sevent evs[16];
+	sevent evs[20];
 	int    nev   = 0;
 	long   total = c->d[0].n + c->d[1].n;
 	int    nres  = (int) vf_below(r, 5);
@@ -1301,7 +1569,12 @@ stream_case(long idx, vf_rng *r)
 		evs[nev++] = (sevent){ (long) vf_below(r, (uint32_t) total), c->replace ? EV_XRAW : kind };
 	}
 	if (c->replace) {
-		evs[nev++] = (sevent){ (long) vf_range(r, (uint32_t) total / 5, (uint32_t) (3 * total / 5)), EV_REPLACE };
+		// early, so that most of the stream is judged for loss
+		evs[nev++] = (sevent){ (long) vf_range(r, (uint32_t) total / 10, (uint32_t) (total / 3)), EV_REPLACE };
+	}
+	int nq = (int) vf_range(r, 1, 3);
+	for (int k = 0; k < nq; k++) {
+		evs[nev++] = (sevent){ (long) vf_below(r, (uint32_t) total), EV_QUIESCE };
 	}
 	for (int i = 1; i < nev; i++) { // insertion sort by threshold
 		sevent e = evs[i];
@@ -1390,6 +1663,15 @@ stream_case(long idx, vf_rng *r)
 			case EV_DECOY:
 				launch_decoy(c, r);
 				break;
+			case EV_QUIESCE: {
+				int q = quiesce_resize(c, r);
+				if (q == -1) {
+					failed = true;
+				} else if (q == -2) {
+					stalled = true;
+				}
+				break;
+			}
 			case EV_REPLACE: {
 				// The connection goes away under traffic (closed on the
 				// listening or on the dialling socket); B's dialer
@@ -1405,15 +1687,38 @@ stream_case(long idx, vf_rng *r)
 					atomic_store(&c->cut_skipped, 1);
 					break; // (unexpected disconnect: handled at the end)
 				}
-				atomic_store(&c->cuts, 1);
+				xcont       xc[2];
+				int         nxc = c->contend ? (int) vf_range(r, 1, 2) : 0;
+				_Atomic int go  = 0;
+				c->xlaunched += nxc;
+				for (int k = 0; k < nxc; k++) {
+					memset(&xc[k], 0, sizeof(xc[k]));
+					xc[k].l           = &xl;
+					xc[k].proto       = c->pk->id;
+					xc[k].v1          = c->pk->v1;
+					xc[k].delay_us    = vf_chance(r, 1, 2) ? 0 : (int) vf_below(r, 3000);
+					xc[k].patience_ms = (int) vf_range(r, 20, 200);
+					xc[k].go          = &go;
+					pthread_create(&xc[k].th, NULL, xcont_thread, &xc[k]);
+				}
+				// (while contenders may hold the slot nothing is "up")
+				atomic_store(&c->cuts, c->contend ? 1000000 : 1);
 				atomic_store(&c->cut_started, 1);
 				nng_pipe_close(np);
+				atomic_store(&go, 1);
+				for (int k = 0; k < nxc; k++) {
+					pthread_join(xc[k].th, NULL); // bounded: every contender leaves by itself
+					vf_stat(xc[k].outcome == 2 ? "contenders_attached_at_replacement" : xc[k].outcome == 1 ? "contenders_refused_at_replacement" : "contenders_undecided_at_replacement", 1);
+				}
 				uint64_t end = vf_now_ns() + 10000ULL * 1000000ULL;
 				bool     up  = false;
 				while (vf_now_ns() < end) {
 					monsnap a = mon_get(&c->ma), b = mon_get(&c->mb);
-					if (a.post >= 2 && b.post >= 2 && a.live == 1 && b.live == 1 &&
-					    a.rem_live == 1 && b.rem_live >= 1) {
+					// A's pipe is the redialling peer's (not a contender that is
+					// on its way out) and every pipe A had before is gone
+					if (a.post >= 2 && b.post >= 2 && a.live == 1 && b.live == 1 && !a.first_is_x &&
+					    a.rem_live == a.post - 1 && a.rem_live >= 1 && b.rem_live >= 1) {
+						atomic_store(&c->cuts, (int) a.rem_live);
 						up = true;
 						break;
 					}
@@ -1446,6 +1751,11 @@ stream_case(long idx, vf_rng *r)
 				}
 				atomic_store(&c->cut_done, 1);
 				vf_stat("replacements", 1);
+				if (nxc > 0) {
+					vf_stat("replacements_with_contenders", 1);
+					vf_class("replace-contended/%s/%s/%s", c->pk->name, vf_tran_names[c->tran],
+					    mon_get(&c->ma).xpost > 0 ? "contender-seen-attached" : "no-contender-seen-attached");
+				}
 				vf_class("replace/%s/%s/%s-side", c->pk->name, vf_tran_names[c->tran], side == 0 ? "listening" : "dialling");
 				break;
 			}
@@ -1505,6 +1815,19 @@ stream_case(long idx, vf_rng *r)
 	// extra peers go away first so that none of them can become the peer
 	monsnap sa = mon_get(&c->ma), sb = mon_get(&c->mb);
 	close_extras(c);
+	if (clean && c->contend) {
+		// at most once also for what a contender sent while it was the peer.
+		// (Whether a contender was attached cannot be told from the pipe
+		// events: ADD_POST is not delivered for a pipe that is already gone
+		// again when its turn comes.)
+		long got = atomic_load(&c->d[1].intruders);
+		if (got > c->xlaunched) {
+			vf_violation("C08/order/duplicate-or-late/contender-message",
+			    "%s %s: %ld messages of contending raw peers were delivered after the connection was cut, but only %d contenders connected (each sent one message)",
+			    c->pk->name, vf_tran_names[c->tran], got, c->xlaunched);
+		}
+		vf_stat("contender_messages_delivered_legitimately", got);
+	}
 	if (clean) {
 		// nothing more may arrive in either direction
 		vf_quiesce(2, 3000);
@@ -1534,6 +1857,7 @@ stream_case(long idx, vf_rng *r)
 	if (clean) {
 		long refused = sa.rem_refused + sb.rem_refused;
 		vf_stat("cases", 1);
+		vf_stat("stream_cases", 1);
 		long lost = atomic_load(&c->d[0].lost_at_cut) + atomic_load(&c->d[1].lost_at_cut);
 		vf_stat("delivered_in_order", c->d[0].ntot + c->d[1].ntot - lost);
 		if (c->replace && atomic_load(&c->cut_done)) {
@@ -1541,6 +1865,9 @@ stream_case(long idx, vf_rng *r)
 			vf_stat("lost_at_cut", lost);
 			for (int k = 0; k < 2; k++) {
 				vf_stat("delivered_after_replacement", c->d[k].ntot - atomic_load(&c->cut_hi[k]));
+			}
+			if (c->contend) {
+				vf_stat("contended_replaced_streams_completed", 2);
 			}
 			if (lost > 0) {
 				vf_stat("replacements_with_loss", 1);
@@ -1562,6 +1889,10 @@ stream_case(long idx, vf_rng *r)
 			if (d->smode == SM_SHORT || d->smode == SM_NONBLOCK || d->rmode == RM_SHORT || d->rmode == RM_NONBLOCK) {
 				vf_stat("delivered_with_failing_ops", d->n - atomic_load(&d->lost_at_cut));
 			}
+		}
+		if (c->empty) {
+			vf_stat("empty_msgs_delivered", c->d[0].ntot + c->d[1].ntot);
+			vf_class("stream-empty/%s/%s", c->pk->name, vf_tran_names[c->tran]);
 		}
 		vf_stat("refused_pipes", refused);
 		if (sa.maxlive == 1 && sb.maxlive == 1) {
@@ -1589,6 +1920,9 @@ stream_case(long idx, vf_rng *r)
 			unlink(c->lsns[k].url + 6);
 		}
 	}
+	if (c->contend && xl.tran == VF_T_IPC) {
+		unlink(xl.url + 6);
+	}
 	free(c);
 }
 
@@ -1601,8 +1935,8 @@ static const uint32_t hop_special[] = { 0, 1, 2, 3, 4, 5, 6, 7, 8, 9, 10, 11, 12
 #define NSPECIAL ((int) (sizeof(hop_special) / sizeof(hop_special[0])))
 
 typedef struct {
-	int      kind; // 0 hop word frame, 1 short frame
-	uint32_t hop;
+	int      kind; // 0 hop word frame, 1 short frame, 2 frame that is exactly one hop word (empty message)
+	uint32_t hop;  // kind 2: 0 -> hop 0, 1 -> hop MAXTTL, 2 -> hop MAXTTL+1 (resolved when sent)
 	int      shortlen;
 	char     cls[24];
 } hframe;
@@ -1806,6 +2140,12 @@ hop_burst(hcase *h, vf_rng *r, int tran)
 	bool    parked   = vf_chance(r, 1, 3);
 	bool    sending  = !mal_last && vf_chance(r, 1, 3);
 	int     nvalid = 0, ndrop = 0;
+	// MAXTTL may change while the burst is in flight: frames are then chosen
+	// so that their fate is the same under the old and the new limit
+	bool    flip   = vf_chance(r, 1, 4);
+	int     newttl = flip ? (int) vf_range(r, 1, 15) : h->ttl;
+	int     lo     = newttl < h->ttl ? newttl : h->ttl;
+	int     hi     = newttl > h->ttl ? newttl : h->ttl;
 	for (int k = 0; k < n; k++) {
 		bool last = k == n - 1;
 		f[k].len  = VF_BODY_MIN + vf_below(r, 64);
@@ -1818,10 +2158,10 @@ hop_burst(hcase *h, vf_rng *r, int tran)
 			}
 		} else if (last || vf_chance(r, 1, 2)) {
 			f[k].kind = 0;
-			f[k].hop  = vf_below(r, (uint32_t) h->ttl + 1);
+			f[k].hop  = vf_below(r, (uint32_t) lo + 1);
 		} else {
 			f[k].kind = 1;
-			f[k].hop  = vf_range(r, (uint32_t) h->ttl + 1, 0xff);
+			f[k].hop  = vf_range(r, (uint32_t) hi + 1, 0xff);
 		}
 		if (f[k].kind != 3) {
 			f[k].seq = h->rxseq++;
@@ -1852,6 +2192,13 @@ hop_burst(hcase *h, vf_rng *r, int tran)
 	}
 	if (vf_fd_write_all(h->fd, buf, off, 5000) != 0) {
 		vf_harness_fail("raw partner burst write");
+	}
+	if (flip) {
+		h->ttl = newttl;
+		if (nng_socket_set_int(h->s, NNG_OPT_MAXTTL, h->ttl) != 0) {
+			vf_harness_fail("set maxttl");
+		}
+		vf_stat("bursts_with_maxttl_change_in_flight", 1);
 	}
 	if (sending && !hop_outgoing(h, NULL, 0, r)) {
 		if (pre != NULL) {
@@ -1952,6 +2299,70 @@ hop_burst(hcase *h, vf_rng *r, int tran)
 	return true;
 }
 
+// A raw PAIRv1 socket must refuse a send whose header is not exactly one hop
+// word below 0xff (what it would put on the wire is a malformed frame that
+// makes the PEER hang up): the call fails, the message stays with the caller
+// and nothing reaches the wire (the caller's next legal send is the next
+// frame the raw partner reads - checked by hop_outgoing right behind).
+static bool
+hop_refused_send(hcase *h, vf_rng *r)
+{
+	static const char *vn[] = { "hop-0xff", "hop-0x100", "hop-0xffffffff", "no-header", "two-word-header" };
+	int      v = (int) vf_below(r, 5);
+	nng_msg *m;
+	size_t   blen = VF_BODY_MIN + vf_below(r, 60);
+	if (nng_msg_alloc(&m, blen) != 0) {
+		vf_harness_fail("msg alloc");
+	}
+	vf_body_make(nng_msg_body(m), blen, TAG_INTRUDER, 99);
+	switch (v) {
+	case 0: nng_msg_header_append_u32(m, 0xff); break;
+	case 1: nng_msg_header_append_u32(m, 0x100); break;
+	case 2: nng_msg_header_append_u32(m, 0xffffffffu); break;
+	case 3: break;
+	default:
+		nng_msg_header_append_u32(m, 1);
+		nng_msg_header_append_u32(m, 1);
+		break;
+	}
+	int rv;
+	if (vf_chance(r, 1, 2)) {
+		rv = nng_sendmsg(h->s, m, vf_chance(r, 1, 2) ? NNG_FLAG_NONBLOCK : 0);
+	} else {
+		nng_aio *a = NULL;
+		if (nng_aio_alloc(&a, NULL, NULL) != 0) {
+			vf_harness_fail("aio alloc");
+		}
+		nng_aio_set_msg(a, m);
+		nng_socket_send(h->s, a);
+		nng_aio_wait(a);
+		rv = (int) nng_aio_result(a);
+		if (rv != 0 && nng_aio_get_msg(a) != m) {
+			vf_violation("C08/lossless/failed-send-took-message",
+			    "%s: raw send with %s failed with %s but the message is no longer attached to the aio",
+			    h->sname, vn[v], nng_strerror(rv));
+			nng_aio_free(a);
+			return false;
+		}
+		nng_aio_free(a);
+	}
+	if (rv == 0) {
+		char key[96];
+		snprintf(key, sizeof(key), "C08/hop/outgoing-hop-word/raw-send-accepted-%s", vn[v]);
+		vf_violation(key,
+		    "%s: a raw send whose header is %s was accepted (the frame it puts on the wire cannot carry a hop count <= 0xff)",
+		    h->sname, vn[v]);
+		return false;
+	}
+	nng_msg_free(m); // still ours: a second free inside the library is an ASan report
+	if (rv != NNG_EPROTO) {
+		vf_stat("raw_send_refusals_other_error", 1);
+	}
+	vf_stat("raw_send_refusals_verified", 1);
+	vf_class("out/%s/refused/%s", h->sname, vn[v]);
+	return true;
+}
+
 // The socket sends; the raw partner must read hop word 'want'.
 // returns false if the case must stop
 static bool
@@ -1963,16 +2374,30 @@ hop_outgoing(hcase *h, nng_msg *fwd, uint32_t inhop, vf_rng *r)
 	uint64_t    seq = 0;
 	size_t      blen;
 	const char *how;
+	bool        refused_before = false;
 	if (fwd != NULL) {
-		// raw socket forwards what it received: header h -> wire h+1
 		m    = fwd;
-		want = inhop + 1;
-		how  = "forward";
-		if (vf_body_check(nng_msg_body(m), nng_msg_len(m), &tag, &seq) != 0) {
+		blen = nng_msg_len(m);
+		if (blen != 0 && vf_body_check(nng_msg_body(m), blen, &tag, &seq) != 0) {
 			vf_harness_fail("forward body");
 		}
-		blen = nng_msg_len(m);
+		if (h->sraw) {
+			// raw socket forwards what it received: header h -> wire h+1
+			want = inhop + 1;
+			how  = "forward";
+		} else {
+			// cooked socket sends a received message back (the reply
+			// idiom): whatever header it carries, the wire hop is 1
+			want = 1;
+			how  = "cooked-resend";
+		}
 	} else {
+		if (h->sraw && vf_chance(r, 1, 8)) {
+			if (!hop_refused_send(h, r)) {
+				return false;
+			}
+			refused_before = true;
+		}
 		blen = VF_BODY_MIN + vf_below(r, 100);
 		seq  = h->outseq++;
 		tag  = TAG_OUT;
@@ -2006,20 +2431,32 @@ hop_outgoing(hcase *h, nng_msg *fwd, uint32_t inhop, vf_rng *r)
 	}
 	uint32_t t2 = 0;
 	uint64_t s2 = 0;
-	if (n < 4 || vf_body_check(buf + 4, (size_t) n - 4, &t2, &s2) != 0 || t2 != tag || s2 != seq || (size_t) n - 4 != blen) {
-		vf_violation("C08/order/wire-frame-mismatch",
-		    "%s: %s: raw partner read a frame of %ld bytes that is not hop word + the body sent (tag %08x seq %llu)",
-		    h->sname, how, n, t2, (unsigned long long) s2);
+	bool     same;
+	if (blen == 0) {
+		same = n == 4;
+	} else {
+		same = n >= 4 && vf_body_check(buf + 4, (size_t) n - 4, &t2, &s2) == 0 && t2 == tag && s2 == seq && (size_t) n - 4 == blen;
+	}
+	if (!same) {
+		vf_violation(refused_before && t2 == TAG_INTRUDER ? "C08/lossless/failed-send-was-sent" : "C08/order/wire-frame-mismatch",
+		    "%s: %s: raw partner read a frame of %ld bytes that is not hop word + the body sent (tag %08x seq %llu, %zu body bytes sent%s)",
+		    h->sname, how, n, t2, (unsigned long long) s2, blen, refused_before ? "; a refused send preceded it" : "");
 		return false;
 	}
 	uint32_t got = get32(buf);
 	if (got != want) {
-		vf_violation(fwd != NULL ? "C08/hop/outgoing-hop-word/forward" : h->sraw ? "C08/hop/outgoing-hop-word/raw-send" : "C08/hop/outgoing-hop-word/cooked-send",
+		vf_violation(fwd != NULL && h->sraw ? "C08/hop/outgoing-hop-word/forward" : h->sraw ? "C08/hop/outgoing-hop-word/raw-send" : "C08/hop/outgoing-hop-word/cooked-send",
 		    "%s: %s: hop word on the wire is %u, expected %u", h->sname, how, got, want);
 		return false;
 	}
 	vf_stat("outgoing_hop_checked", 1);
-	vf_class("out/%s/%s", h->sname, fwd != NULL ? "forward" : want == 1 ? "hop1" : want == 0xff ? "hop255" : "hopN");
+	if (fwd != NULL && !h->sraw) {
+		vf_stat("cooked_resend_of_received_checked", 1);
+	}
+	if (blen == 0) {
+		vf_stat("empty_body_sends_checked", 1);
+	}
+	vf_class("out/%s/%s%s", h->sname, fwd != NULL ? (h->sraw ? "forward" : "resend") : want == 1 ? "hop1" : want == 0xff ? "hop255" : "hopN", blen == 0 ? "/empty" : "");
 	return true;
 }
 
@@ -2028,7 +2465,9 @@ hop_send_frame(hcase *h, uint32_t hop, uint64_t seq, size_t blen)
 {
 	uint8_t buf[4 + 512];
 	put32(buf, hop);
-	vf_body_make(buf + 4, blen, TAG_HOP, seq);
+	if (blen != 0) {
+		vf_body_make(buf + 4, blen, TAG_HOP, seq);
+	}
 	return vf_sp_send_frame(h->fd, h->ipc, buf, 4 + blen) == 0;
 }
 
@@ -2036,7 +2475,7 @@ static void
 hop_case(long idx, int ttl0, bool sraw, int tran, vf_rng *r)
 {
 	hcase  h;
-	hframe fr[NSPECIAL + 4 + 24];
+	hframe fr[NSPECIAL + 4 + 3 + 24];
 	int    nf = 0, rv;
 	bool   thorough = vf_tier == 1;
 	char   hn[16];
@@ -2085,6 +2524,13 @@ hop_case(long idx, int ttl0, bool sraw, int tran, vf_rng *r)
 		snprintf(fr[nf].cls, sizeof(fr[nf].cls), "short%d", k);
 		nf++;
 	}
+	for (int k = 0; k < 3; k++) {
+		static const char *hn3[] = { "hoponly-0", "hoponly-ttl", "hoponly-ttl+1" };
+		fr[nf].kind = 2;
+		fr[nf].hop  = (uint32_t) k;
+		snprintf(fr[nf].cls, sizeof(fr[nf].cls), "%s", hn3[k]);
+		nf++;
+	}
 	int nrand = thorough ? 20 : 10;
 	for (int k = 0; k < nrand; k++) {
 		fr[nf].kind = 0;
@@ -2118,9 +2564,14 @@ hop_case(long idx, int ttl0, bool sraw, int tran, vf_rng *r)
 				vf_class("refused/raw/%s/%s/partner-is-raw", h.sname, vf_tran_names[tran]);
 			}
 		}
+		bool hoponly = f->kind == 2;
+		if (hoponly) {
+			// boundary: the frame is exactly the hop word, a legal empty message
+			f->hop = f->hop == 0 ? 0 : f->hop == 1 ? (uint32_t) h.ttl : (uint32_t) h.ttl + 1;
+		}
 		bool malformed = f->kind == 1 || f->hop > 0xff;
 		bool dropped   = !malformed && (int) f->hop > h.ttl;
-		size_t   blen  = VF_BODY_MIN + vf_below(r, 200);
+		size_t   blen  = hoponly ? 0 : VF_BODY_MIN + vf_below(r, 200);
 		uint64_t seq   = 0;
 		const char *outcome;
 		if (f->kind == 1) {
@@ -2129,7 +2580,7 @@ hop_case(long idx, int ttl0, bool sraw, int tran, vf_rng *r)
 				vf_harness_fail("raw partner write");
 			}
 		} else {
-			seq = h.rxseq++;
+			seq = hoponly ? 0 : h.rxseq++;
 			if (!hop_send_frame(&h, f->hop, seq, blen)) {
 				vf_harness_fail("raw partner write");
 			}
@@ -2173,7 +2624,7 @@ hop_case(long idx, int ttl0, bool sraw, int tran, vf_rng *r)
 				    "%s %s ttl=%d hop=%u: the valid frame (hop %u) sent behind the over-TTL frame was not delivered within 10 s; connection %s",
 				    h.sname, vf_tran_names[tran], h.ttl, f->hop, vhop, closed ? "was closed by the socket" : "still open");
 				stop = true;
-			} else if (o.rc == 0 && o.tag == TAG_HOP && o.seq == seq) {
+			} else if (hoponly ? o.len == 0 : (o.rc == 0 && o.tag == TAG_HOP && o.seq == seq)) {
 				vf_violation("C08/hop/over-ttl-delivered",
 				    "%s %s ttl=%d: frame with hop word %u (> MAXTTL) was delivered", h.sname, vf_tran_names[tran], h.ttl, f->hop);
 				nng_msg_free(o.msg);
@@ -2207,7 +2658,7 @@ hop_case(long idx, int ttl0, bool sraw, int tran, vf_rng *r)
 				    "%s %s ttl=%d: frame with hop word %u (<= MAXTTL) not delivered within 10 s; connection %s",
 				    h.sname, vf_tran_names[tran], h.ttl, f->hop, closed ? "was closed by the socket" : "still open");
 				stop = true;
-			} else if (o.rc != 0 || o.tag != TAG_HOP || o.seq != seq || o.len != blen) {
+			} else if (hoponly ? o.len != 0 : (o.rc != 0 || o.tag != TAG_HOP || o.seq != seq || o.len != blen)) {
 				vf_violation(o.rc == 0 && o.tag == TAG_INTRUDER ? "C08/one-peer/intruder-message-delivered" : "C08/order/foreign-message",
 				    "%s %s ttl=%d hop=%u: expected seq %llu (%zu bytes), received tag %08x seq %llu len %zu rc %d",
 				    h.sname, vf_tran_names[tran], h.ttl, f->hop, (unsigned long long) seq, blen, o.tag, (unsigned long long) o.seq, o.len, o.rc);
@@ -2219,7 +2670,8 @@ hop_case(long idx, int ttl0, bool sraw, int tran, vf_rng *r)
 					vf_violation("C08/hop/raw-header-not-wire-hop",
 					    "%s ttl=%d: frame with hop word %u delivered with header len %zu value %u", h.sname, h.ttl, f->hop, o.hlen, o.hdr);
 					stop = true;
-				} else if (h.sraw && vf_chance(r, 1, 2)) {
+				} else if (vf_chance(r, 1, 2)) {
+					// raw: forward it; cooked: send the received message back
 					fwd = true;
 					if (!hop_outgoing(&h, o.msg, f->hop, r)) {
 						stop = true;
@@ -2241,13 +2693,16 @@ hop_case(long idx, int ttl0, bool sraw, int tran, vf_rng *r)
 				stop = true;
 			}
 		}
+		if (!stop && hoponly) {
+			vf_stat("hop_only_frames_verified", 1);
+		}
 		if (!stop) {
 			vf_stat("frames_judged", 1);
 			vf_class("hop/%s/ttl%d/%s/%s", f->cls, h.ttl, h.sname, outcome);
-			if (f->kind == 0 && (int) f->hop == h.ttl) {
+			if (f->kind != 1 && (int) f->hop == h.ttl) {
 				vf_stat("hop_equals_ttl_delivered", 1);
 			}
-			if (f->kind == 0 && (int) f->hop == h.ttl + 1 && f->hop <= 0xff) {
+			if (f->kind != 1 && (int) f->hop == h.ttl + 1 && f->hop <= 0xff) {
 				vf_stat("hop_ttl_plus_one_dropped", 1);
 			}
 		}
@@ -2263,6 +2718,7 @@ hop_case(long idx, int ttl0, bool sraw, int tran, vf_rng *r)
 	}
 	if (!stop) {
 		vf_stat("cases", 1);
+		vf_stat("hop_cases", 1);
 		vf_stat("hop_connections", h.conns);
 		vf_stat("refused_pipes", ms.rem_refused);
 		if ((idx % 8) == 0) {
@@ -2276,6 +2732,392 @@ hop_case(long idx, int ttl0, bool sraw, int tran, vf_rng *r)
 		int code = vf_finish();
 		_exit(code != 0 ? code : 1);
 	}
+}
+
+// ======================================================================
+// contended start (part of mode stream): several peers compete for the FREE
+// slot of a socket that has no peer yet
+// ======================================================================
+// Socket A (pair0, pair0 raw, pair1, pair1 raw) listens on 1-3 transports;
+// 3-6 contenders (nng PAIR dialers that keep redialling, raw peers that
+// complete the handshake) are released together, each sends 2-3 messages
+// with its own tag.  As long as the pipe that got the slot stays attached:
+//  - never two pipes attached (pipe monitor),
+//  - every message A delivers carries ONE tag (the winner's), in order,
+//    complete, from the attached pipe; nothing else, ever,
+//  - the one message A sends is received by the winner and by nobody else,
+//  - every losing raw peer is closed without having seen a byte.
+typedef struct {
+	int          kind; // 0 nng dialer, 1 raw peer
+	int          k;
+	const lsn   *l;
+	const pkind *pk;
+	int          nmsg, delay_us;
+	bool         blocking_start;
+	pthread_barrier_t *bar;
+	pthread_t    th;
+	// nng
+	nng_socket   s;
+	nng_dialer   dl;
+	nng_aio     *raio;
+	pmon         mon;
+	// raw
+	int          fd;
+	int          outcome; // 1 EOF without data, 2 data, 0 neither within 10 s, 3 closed in handshake, -1 no connection
+	bool         got_hello, bad_data;
+} cont;
+
+static nng_msg *
+cont_msg(const pkind *pk, bool raw, uint32_t tag, uint64_t seq)
+{
+	nng_msg *m;
+	if (nng_msg_alloc(&m, 40) != 0) {
+		vf_harness_fail("msg alloc");
+	}
+	vf_body_make(nng_msg_body(m), 40, tag, seq);
+	if (raw && pk->v1) {
+		nng_msg_header_append_u32(m, 0);
+	}
+	return m;
+}
+
+static void *
+cont_thread(void *arg)
+{
+	cont *x = arg;
+	pthread_barrier_wait(x->bar);
+	if (x->delay_us > 0) {
+		vf_usleep(x->delay_us);
+	}
+	if (x->kind == 0) {
+		int rv = nng_dialer_start(x->dl, x->blocking_start ? 0 : NNG_FLAG_NONBLOCK);
+		if (rv != 0) {
+			vf_stat("contender_dial_first_attempt_failed", 1); // (keeps redialling all the same)
+		}
+		for (int j = 0; j < x->nmsg; j++) {
+			nng_msg *m = cont_msg(x->pk, false, TAG_CONT + (uint32_t) x->k, (uint64_t) j);
+			if ((rv = nng_sendmsg(x->s, m, NNG_FLAG_NONBLOCK)) != 0) {
+				nng_msg_free(m);
+				vf_harness_fail("contender send: %s", nng_strerror(rv));
+			}
+		}
+		return NULL;
+	}
+	uint16_t peer = 0;
+	uint8_t  buf[4 + 256];
+	bool     ipc = x->l->tran == VF_T_IPC;
+	x->fd        = lsn_raw_connect(x->l);
+	if (x->fd < 0) {
+		x->outcome = -1;
+		return NULL;
+	}
+	if (vf_sp_handshake(x->fd, x->pk->id, &peer, 10000) != 0) {
+		x->outcome = 3;
+		return NULL;
+	}
+	for (int j = 0; j < x->nmsg; j++) {
+		size_t off = 0;
+		if (x->pk->v1) {
+			put32(buf, 1);
+			off = 4;
+		}
+		vf_body_make(buf + off, 40, TAG_CONT + (uint32_t) x->k, (uint64_t) j);
+		(void) vf_sp_send_frame(x->fd, ipc, buf, off + 40);
+	}
+	// EOF (refused), or data: only the winner may ever see any
+	uint64_t end = vf_now_ns() + 10000ULL * 1000000ULL;
+	for (;;) {
+		int64_t left = ((int64_t) end - (int64_t) vf_now_ns()) / 1000000;
+		if (left <= 0) {
+			x->outcome = 0;
+			return NULL;
+		}
+		struct pollfd pf = { x->fd, POLLIN, 0 };
+		int           pr = poll(&pf, 1, (int) left);
+		if (pr < 0 && errno == EINTR) {
+			continue;
+		}
+		if (pr <= 0) {
+			x->outcome = 0;
+			return NULL;
+		}
+		uint8_t b;
+		ssize_t n = recv(x->fd, &b, 1, MSG_PEEK | MSG_DONTWAIT);
+		if (n == 0 || (n < 0 && errno != EAGAIN && errno != EINTR)) {
+			x->outcome = 1;
+			return NULL;
+		}
+		if (n > 0) {
+			break;
+		}
+	}
+	x->outcome = 2;
+	long n = vf_sp_recv_frame(x->fd, ipc, buf, sizeof(buf), 10000);
+	size_t   off = x->pk->v1 ? 4 : 0;
+	uint32_t tag = 0;
+	uint64_t seq = 0;
+	if (n >= (long) off && vf_body_check(buf + off, (size_t) n - off, &tag, &seq) == 0 && tag == TAG_HELLO) {
+		x->got_hello = true;
+	} else {
+		x->bad_data = true;
+	}
+	return NULL;
+}
+
+static void
+contend_case(long idx, vf_rng *r)
+{
+	static const int apk[] = { 0, 1, 2, 3 }; // pair0, pair0raw, pair1, pair1raw
+	const pkind     *pk   = &pkinds[apk[vf_below(r, 4)]];
+	bool             araw = pk->open_a == nng_pair0_open_raw || pk->open_a == nng_pair1_open_raw;
+	nng_socket       a;
+	pmon             ma;
+	lsn              ls[3];
+	cont             x[6];
+	int              nl = (int) vf_range(r, 1, 3), nc = (int) vf_range(r, 3, 6);
+	int              pert = (int) vf_below(r, 3), rv;
+	int              nmsg = (int) vf_range(r, 2, 3);
+	pthread_barrier_t bar;
+	vf_case_begin(idx, "contended start %s listeners=%d contenders=%d pert=%d", pk->name, nl, nc, pert);
+	vf_watchdog(180);
+	if (pert == 1) {
+		vf_pt_jitter(vf_rand(r), (int) vf_range(r, 5, 60), (int) vf_range(r, 20, 300));
+	} else if (pert == 2) {
+		vf_pt_jitter(vf_rand(r), 5, 50);
+	} else {
+		vf_pt_off();
+	}
+	if (pk->open_a(&a) != 0) {
+		vf_harness_fail("open");
+	}
+	mon_attach(a, &ma, pk->name);
+	nng_socket_set_ms(a, NNG_OPT_SENDTIMEO, NNG_DURATION_INFINITE);
+	nng_socket_set_ms(a, NNG_OPT_RECVTIMEO, NNG_DURATION_INFINITE);
+	nng_socket_set_int(a, NNG_OPT_SENDBUF, (int) vf_below(r, 5));
+	nng_socket_set_int(a, NNG_OPT_RECVBUF, (int) vf_below(r, 5));
+	if (pk->v1) {
+		nng_socket_set_int(a, NNG_OPT_MAXTTL, 15);
+	}
+	bool has_stream_lsn = false;
+	for (int k = 0; k < nl; k++) {
+		if ((rv = lsn_open(a, 0, (int) vf_below(r, 3), &ls[k])) != 0) {
+			vf_harness_fail("listen: %s", nng_strerror(rv));
+		}
+		has_stream_lsn = has_stream_lsn || ls[k].tran != VF_T_INPROC;
+	}
+	pthread_barrier_init(&bar, NULL, (unsigned) nc + 1);
+	int nraw = 0;
+	for (int k = 0; k < nc; k++) {
+		cont *c = &x[k];
+		memset(c, 0, sizeof(*c));
+		c->k    = k;
+		c->pk   = pk;
+		c->bar  = &bar;
+		c->nmsg = nmsg;
+		c->fd   = -1;
+		c->l    = &ls[vf_below(r, (uint32_t) nl)];
+		c->kind = (int) vf_below(r, 2);
+		if (c->kind == 1 && c->l->tran == VF_T_INPROC) {
+			// raw peers need a stream transport
+			for (int t = 0; t < nl && has_stream_lsn; t++) {
+				if (ls[t].tran != VF_T_INPROC) {
+					c->l = &ls[t];
+				}
+			}
+			if (c->l->tran == VF_T_INPROC) {
+				c->kind = 0;
+			}
+		}
+		c->delay_us       = vf_chance(r, 2, 3) ? 0 : (int) vf_below(r, 400);
+		c->blocking_start = vf_chance(r, 1, 2);
+		if (c->kind == 0) {
+			if ((pk->v1 ? nng_pair1_open(&c->s) : nng_pair0_open(&c->s)) != 0) {
+				vf_harness_fail("open contender");
+			}
+			mon_attach(c->s, &c->mon, pk->name);
+			nng_socket_set_ms(c->s, NNG_OPT_RECONNMINT, (nng_duration) vf_range(r, 10, 50));
+			nng_socket_set_ms(c->s, NNG_OPT_RECONNMAXT, 60);
+			nng_socket_set_int(c->s, NNG_OPT_SENDBUF, 4);
+			if (nng_aio_alloc(&c->raio, NULL, NULL) != 0) {
+				vf_harness_fail("aio alloc");
+			}
+			nng_aio_set_timeout(c->raio, NNG_DURATION_INFINITE);
+			nng_socket_recv(c->s, c->raio);
+			if ((rv = nng_dialer_create(&c->dl, c->s, c->l->url)) != 0) {
+				vf_harness_fail("dialer create %s: %s", c->l->url, nng_strerror(rv));
+			}
+		} else {
+			nraw++;
+		}
+		pthread_create(&c->th, NULL, cont_thread, c);
+	}
+	pthread_barrier_wait(&bar);
+	if (!mon_wait_post(&ma, 1, 10000)) {
+		vf_harness_fail("contended start: nobody was attached within 10 s");
+	}
+	// the one message A sends
+	nng_msg *hello = cont_msg(pk, araw, TAG_HELLO, 0);
+	if ((rv = nng_sendmsg(a, hello, 0)) != 0) {
+		nng_msg_free(hello);
+		vf_harness_fail("contended start: send on A: %s", nng_strerror(rv));
+	}
+	for (int k = 0; k < nc; k++) {
+		pthread_join(x[k].th, NULL);
+	}
+	// what A delivers: one tag, seq 0..nmsg-1, from the attached pipe
+	const char *vkey = NULL; // verdicts are held back until the slot holder is known to have stayed
+	char        vtxt[256] = "";
+	int         winner = -1;
+	long        got    = 0;
+	for (int j = 0; j < nmsg && vkey == NULL; j++) {
+		nng_aio *ra = NULL;
+		if (nng_aio_alloc(&ra, NULL, NULL) != 0) {
+			vf_harness_fail("aio alloc");
+		}
+		nng_aio_set_timeout(ra, NNG_DURATION_INFINITE);
+		nng_socket_recv(a, ra);
+		hrecv o = hop_recv_wait(ra, 10000);
+		if (o.rc == 1) {
+			vkey = "C08/lossless/accepted-not-delivered";
+			snprintf(vtxt, sizeof(vtxt), "only %ld of the %d messages every contender sent were delivered within 10 s", got, nmsg);
+			break;
+		}
+		int      w    = (int) (o.tag - TAG_CONT);
+		uint32_t from = (uint32_t) nng_pipe_id(nng_msg_get_pipe(o.msg));
+		monsnap  ms   = mon_get(&ma);
+		if (o.rc != 0 || w < 0 || w >= nc) {
+			vkey = "C08/order/foreign-message";
+			snprintf(vtxt, sizeof(vtxt), "delivery %d is not a contender's message (rc %d tag %08x len %zu)", j, o.rc, o.tag, o.len);
+		} else if (winner >= 0 && w != winner) {
+			vkey = "C08/one-peer/two-contenders-delivered";
+			snprintf(vtxt, sizeof(vtxt), "messages of contender %d (%s) and of contender %d (%s) were delivered", winner,
+			    x[winner].kind ? "raw" : "nng", w, x[w].kind ? "raw" : "nng");
+		} else if (o.seq != (uint64_t) j) {
+			vkey = o.seq < (uint64_t) j ? "C08/order/duplicate-or-late/contended-start" : "C08/order/skipped-or-early/contended-start";
+			snprintf(vtxt, sizeof(vtxt), "expected seq %d of contender %d, received seq %llu", j, w, (unsigned long long) o.seq);
+		} else if (ms.live == 1 && from != ms.first_id) {
+			vkey = "C08/one-peer/message-from-unattached-pipe";
+			snprintf(vtxt, sizeof(vtxt), "a message was delivered from pipe %u while pipe %u is the attached one", from, ms.first_id);
+		}
+		winner = winner < 0 && w >= 0 && w < nc ? w : winner;
+		got++;
+		nng_msg_free(o.msg);
+	}
+	// the winner, and only the winner, has A's message
+	int hellos = 0;
+	for (int k = 0; k < nc && vkey == NULL; k++) {
+		cont *c = &x[k];
+		bool  has = false, junk = false;
+		if (c->kind == 1) {
+			has  = c->got_hello;
+			junk = c->bad_data;
+		} else {
+			if (k == winner) {
+				uint64_t end = vf_now_ns() + 10000ULL * 1000000ULL;
+				while (nng_aio_busy(c->raio) && vf_now_ns() < end) {
+					vf_usleep(100);
+				}
+			}
+			if (!nng_aio_busy(c->raio) && nng_aio_result(c->raio) == 0) {
+				nng_msg *m   = nng_aio_get_msg(c->raio);
+				uint32_t tag = 0;
+				uint64_t seq = 0;
+				has  = true;
+				junk = vf_body_check(nng_msg_body(m), nng_msg_len(m), &tag, &seq) != 0 || tag != TAG_HELLO;
+			}
+		}
+		if (junk) {
+			vkey = "C08/order/foreign-message";
+			snprintf(vtxt, sizeof(vtxt), "contender %d (%s) received something that is not the message A sent", k, c->kind ? "raw" : "nng");
+		} else if (has && k != winner) {
+			vkey = c->kind ? "C08/one-peer/extra-peer-got-data" : "C08/one-peer/extra-peer-received-message";
+			snprintf(vtxt, sizeof(vtxt), "contender %d (%s) received A's message, but A delivers the messages of contender %d", k, c->kind ? "raw" : "nng", winner);
+		} else if (!has && k == winner) {
+			vkey = "C08/lossless/accepted-not-delivered";
+			snprintf(vtxt, sizeof(vtxt), "the message A sent did not reach the attached contender %d (%s) within 10 s", k, c->kind ? "raw" : "nng");
+		} else if (c->kind == 1 && k != winner && c->outcome == 0) {
+			vkey = "C08/one-peer/extra-peer-not-refused";
+			snprintf(vtxt, sizeof(vtxt), "losing raw contender %d completed the SP handshake and was not closed within 10 s", k);
+		}
+		hellos += has;
+	}
+	// losers go away; nothing more may have been delivered
+	for (int k = 0; k < nc; k++) {
+		if (k != winner && x[k].kind == 0) {
+			nng_dialer_close(x[k].dl);
+		} else if (k != winner && x[k].fd >= 0) {
+			close(x[k].fd);
+			x[k].fd = -1;
+		}
+	}
+	vf_quiesce(2, 3000);
+	if (vkey == NULL) {
+		nng_msg *m = NULL;
+		if (nng_recvmsg(a, &m, NNG_FLAG_NONBLOCK) == 0) {
+			uint32_t tag = 0;
+			uint64_t seq = 0;
+			int      rc  = vf_body_check(nng_msg_body(m), nng_msg_len(m), &tag, &seq);
+			int      w   = (int) (tag - TAG_CONT);
+			if (rc == 0 && w >= 0 && w < nc && w != winner) {
+				vkey = "C08/one-peer/two-contenders-delivered";
+				snprintf(vtxt, sizeof(vtxt), "after the %d messages of contender %d a message of contender %d (%s, seq %llu) was delivered",
+				    nmsg, winner, w, x[w].kind ? "raw" : "nng", (unsigned long long) seq);
+			} else {
+				vkey = "C08/order/extra-message-at-end";
+				snprintf(vtxt, sizeof(vtxt), "after the %d messages of the attached contender another message (rc %d tag %08x seq %llu) was delivered",
+				    nmsg, rc, tag, (unsigned long long) seq);
+			}
+			nng_msg_free(m);
+		}
+	}
+	monsnap fin    = mon_get(&ma);
+	bool    stable = fin.post == 1 && fin.live == 1 && fin.rem_live == 0;
+	if (vkey != NULL && stable) {
+		vf_violation(vkey, "contended start, %s, %d listeners, %d contenders (%d raw): %s; the pipe that got the slot stayed attached, %ld others were refused",
+		    pk->name, nl, nc, nraw, vtxt, fin.rem_refused);
+	}
+	long nng_attempts = 0;
+	for (int k = 0; k < nc; k++) {
+		cont *c = &x[k];
+		if (c->kind == 0) {
+			nng_aio_stop(c->raio);
+			if (nng_aio_result(c->raio) == 0 && nng_aio_get_msg(c->raio) != NULL) {
+				nng_msg_free(nng_aio_get_msg(c->raio));
+			}
+			nng_aio_free(c->raio);
+			nng_socket_close(c->s);
+			if (k != winner) {
+				nng_attempts += mon_get(&c->mon).post;
+			}
+		} else if (c->fd >= 0) {
+			close(c->fd);
+		}
+	}
+	nng_socket_close(a);
+	vf_pt_off();
+	pthread_barrier_destroy(&bar);
+	for (int k = 0; k < nl; k++) {
+		if (ls[k].tran == VF_T_IPC) {
+			unlink(ls[k].url + 6);
+		}
+	}
+	if (vkey != NULL && stable) {
+		vf_stat("cases_aborted", 1);
+		int code = vf_finish();
+		_exit(code != 0 ? code : 1);
+	}
+	if (!stable || winner < 0) {
+		vf_stat("contended_starts_unstable", 1);
+		return;
+	}
+	vf_stat("cases", 1);
+	vf_stat("contended_starts", 1);
+	vf_stat("contenders_refused", nc - 1);
+	vf_stat("contender_nng_attempts_refused", nng_attempts);
+	vf_stat("refused_pipes", fin.rem_refused);
+	vf_stat(x[winner].kind ? "contended_starts_won_by_raw" : "contended_starts_won_by_nng", 1);
+	vf_class("contend/%s/%s-wins/%dof%d-raw/%dl", pk->name, x[winner].kind ? "raw" : "nng", nraw, nc, nl);
+	(void) hellos;
 }
 
 int
@@ -2315,7 +3157,11 @@ main(int argc, char **argv)
 				continue;
 			}
 			vf_rng_seed(&r, vf_seed, (uint64_t) i);
-			stream_case(i, &r);
+			if ((i % 6) == 5) {
+				contend_case(i, &r);
+			} else {
+				stream_case(i, &r);
+			}
 			if ((++ran % 16) == 0) {
 				vf_nng_fini("C08");
 				vf_nng_init((int) vf_range(&r, 2, 8), 2, 2);
